@@ -8,6 +8,7 @@ import (
 func init() {
 	vRegister("H_C12_Packet", H_C12_Packet)
 	vRegister("H_C12_Stream", H_C12_Stream)
+	vRegister("H_C12_PushPullState", H_C12_PushPullState)
 }
 
 type vNetCfg struct {
@@ -189,4 +190,40 @@ func H_C12_Stream() {
 	vAssert(in.closed == 1, "c12.str.receiver-closes")
 	vAssert(len(in.out) == 0, "c12.str.no-error-reply")
 	vCover("c12.str.user")
+}
+
+// C12: push/pull state (node records + delegate user state) reaches the peer's delegate complete and unmodified,
+// under every pipeline configuration and however the stream is fragmented.
+func H_C12_PushPullState() {
+	c := vPickNetCfg()
+	ca, cb := vBaseConfig(), vBaseConfig()
+	cb.Name = vPeerA
+	c.apply(ca)
+	c.apply(cb)
+	fa, fb := vNewML(ca), vNewML(cb)
+	fa.vAddSelf(3, vBytes(1))
+	fa.m.nodeMap[vSelf].PCur = ca.ProtocolVersion
+	fb.vAddSelfNamed(vPeerA)
+	state := vBytes(1 + vPick(5))
+	fa.del = &vDelegateRec{localState: state}
+	ca.Delegate = fa.del
+	fb.del = &vDelegateRec{}
+	cb.Delegate = fb.del
+	wire := &vConn{}
+	vAssert(AddLabelHeaderToStream(wire, c.label) == nil, "c12.pp.label")
+	join := vBool()
+	vAssert(fa.m.sendLocalState(wire, join, c.label) == nil, "c12.pp.send-ok")
+	in := &vConn{in: wire.out, frag: []int{0, 1, 3}[vPick(3)]}
+	fb.m.handleConn(in)
+	vAssert(len(fb.del.merged) == 1, "c12.pp.user-state-delivered")
+	if len(fb.del.merged) == 1 {
+		vAssert(vEqBytes(fb.del.merged[0], state), "c12.pp.user-state-intact")
+		vAssert(fb.del.mergeJoin[0] == join, "c12.pp.join-flag")
+	}
+	ns := fb.m.nodeMap[vSelf]
+	vAssert(ns != nil && ns.State == StateAlive && ns.Incarnation == 3, "c12.pp.node-record")
+	if ns != nil {
+		vAssert(vEqBytes(ns.Meta, fa.m.nodeMap[vSelf].Meta), "c12.pp.meta")
+	}
+	vCover("c12.pp")
 }
